@@ -133,8 +133,9 @@ func crashPhase1(t *Trace) (*crashRun, *Violation) {
 }
 
 // locus classifies log entry p (the write that is torn or about to happen).
-func (cr *crashRun) locus(p int, torn bool) string {
+func (cr *crashRun) locus(p int, j int) string {
 	pre := "before:"
+	torn := j > 0
 	if torn {
 		pre = "in:"
 	}
@@ -176,6 +177,11 @@ func (cr *crashRun) locus(p int, torn bool) string {
 		region = "v2header-chars"
 	case !cr.cfg.CarV1 && e.Off < 51:
 		region = "v2header-offsets"
+		if torn {
+			// which of the three 8-byte fields (data offset, data size, index offset) the cut falls in:
+			// what a reader makes of the record differs completely between them
+			region += "." + []string{"dataoffset", "datasize", "indexoffset", "indexoffset"}[min(3, int(e.Off-27+int64(j)-1)/8)]
+		}
 	case kind == "put" || kind == "putmany":
 		// ordinal of this write among the op's writes: varint, cid, data per stored block
 		ord := 0
@@ -238,10 +244,11 @@ func blkSet(bs []Blk) map[string]Blk {
 }
 
 // judge evaluates one crash image.
-func (cr *crashRun) judge(img *sim.Disk, p int, torn bool, cont []BlkSpec, st *Stats) *Violation {
+func (cr *crashRun) judge(img *sim.Disk, p int, j int, cont []BlkSpec, st *Stats) *Violation {
+	torn := j > 0
 	prevFS := sim.CurrentFS
 	defer func() { sim.CurrentFS = prevFS }()
-	loc := cr.locus(p, torn)
+	loc := cr.locus(p, j)
 	// acked / invoked
 	var acked, invoked []Blk
 	curOp := len(cr.ops)
@@ -417,8 +424,20 @@ func (cr *crashRun) judge(img *sim.Disk, p int, torn bool, cont []BlkSpec, st *S
 		}
 	}
 	var ferr error
+	var preFin *sim.Disk
+	logBeforeFin := img.MutCount()
+	if cr.everySecondTorn || (p*5+j)%3 == 1 {
+		preFin = img.Clone()
+	}
 	if pv := safeCall(func() { ferr = store.Finalize() }); pv != nil {
 		return viol("crash/continuation-panic/"+loc, "Finalize after resume panicked: %v", pv)
+	}
+	if preFin != nil && ferr == nil {
+		// a second crash INSIDE the Finalize of the resumed session
+		if v := cr.judgeSecondTorn(preFin, img.Log[logBeforeFin:], must, Blk{}, "fin:"+loc, st); v != nil {
+			return v
+		}
+		sim.CurrentFS = env.FS
 	}
 	if ferr != nil {
 		return viol("crash/continuation-failed/"+loc, "Finalize after a successful resume failed: %v", ferr)
@@ -458,6 +477,13 @@ func (cr *crashRun) judgeSecondTorn(pre *sim.Disk, writes []sim.Mutation, must [
 			cuts = append(cuts, cut{q, 0})
 		}
 		if n := len(w.Data); w.Kind == sim.MutWrite && n > 1 {
+			if n <= 48 && !tb.Cid.Defined() {
+				// the small records of a Finalize (header characteristics, offsets): every byte
+				for j := 1; j < n; j++ {
+					cuts = append(cuts, cut{q, j})
+				}
+				continue
+			}
 			cuts = append(cuts, cut{q, 1})
 			if n > 3 {
 				cuts = append(cuts, cut{q, n / 2}, cut{q, n - 1})
@@ -498,6 +524,10 @@ func (cr *crashRun) judgeSecondTorn(pre *sim.Disk, writes []sim.Mutation, must [
 			if herr != nil || !has || gerr != nil || !bytes.Equal(data, b.Data) {
 				return viol("crash/acked-block-missing/second-torn:"+loc, "a second crash inside Put(%s) of the resumed session (write %d cut at %d): the next resume lost acknowledged block %s (Has=%v,%v Get err=%v)", tb.Spec, c.q, c.j, b.Spec, has, herr, gerr)
 			}
+		}
+		if !tb.Cid.Defined() {
+			st2.Discard()
+			continue
 		}
 		if has, _ := st2.Has(tb.Cid); has && !IsIdentity(tb.Cid) {
 			data, gerr := st2.Get(tb.Cid)
@@ -564,7 +594,7 @@ func RunC06(t *Trace, st *Stats) *Violation {
 	cr.everySecondTorn = every || (t.Crash != nil && !t.Crash.All)
 	if t.Crash != nil && !t.Crash.All {
 		st.Evals++
-		return cr.judge(cr.imageAt(t.Crash.K, t.Crash.J), t.Crash.K, t.Crash.J > 0, cont, st)
+		return cr.judge(cr.imageAt(t.Crash.K, t.Crash.J), t.Crash.K, t.Crash.J, cont, st)
 	}
 	var first *Violation
 	seenSig := map[string]bool{}
@@ -578,8 +608,8 @@ func RunC06(t *Trace, st *Stats) *Violation {
 		} else {
 			st.Fault("crash@boundary", 1)
 		}
-		v := cr.judge(cr.imageAt(p, j), p, j > 0, cont, st)
-		st.Mark("c06", cfgKey(t.Cfg), fmt.Sprint(len(t.Ops)), cr.locus(p, j > 0), fmt.Sprint(v != nil))
+		v := cr.judge(cr.imageAt(p, j), p, j, cont, st)
+		st.Mark("c06", cfgKey(t.Cfg), fmt.Sprint(len(t.Ops)), cr.locus(p, j), fmt.Sprint(v != nil))
 		if v == nil {
 			return true
 		}
@@ -643,7 +673,11 @@ func GenC06(seed uint64, run int) *Trace {
 			t.Cfg.ZeroEOF = true // development aid: hunt for the symptoms of D3
 		}
 		// many tiny distinct blocks: the flattened index grows past 1 KiB, which is what a crash
-		// between index and header needs in order to be rescanned as plausible sections
+		// between index and header needs in order to be rescanned as plausible sections (and, for the
+		// rescan to stop "cleanly", null padding allowed and the index right behind the payload)
+		if r.Bool() {
+			t.Cfg.ZeroEOF, t.Cfg.IndexPad = true, 0
+		}
 		for i, n := 0, r.Range(26, 44); i < n; i++ {
 			t.Ops = append(t.Ops, Op{Kind: "put", Blks: []BlkSpec{{Kind: "raw", Seed: uint64(100 + i), Size: r.Range(0, 3)}}})
 		}
